@@ -20,30 +20,121 @@ NEED_LABELS = ['stmt-single-assign', 'stmt-cascaded-assign', 'stmt-parallel-assi
                'stmt-for', 'stmt-with', 'stmt-def-decorators', 'builtin-method', 'builtin-call']
 
 
-def first_divergence(exp, got):
-    """index and pair of the first differing log entries"""
-    le = exp[-1][1] if exp and exp[-1][0] == 'log' else []
-    lg = got[-1][1] if got and got[-1][0] == 'log' else []
-    for i in range(max(len(le), len(lg))):
-        a = le[i] if i < len(le) else None
-        b = lg[i] if i < len(lg) else None
-        if a != b:
-            return i, a, b, le, lg
-    return None, None, None, le, lg
+def _log(o):
+    """the event log of an observation; consecutive repeated truth tests of the same object are collapsed (how often
+    __bool__ of a value is called while it travels through nested and/or is not an evaluation of a sub-expression)"""
+    raw = list(o[-1][1]) if o and isinstance(o[-1], list) and o[-1] and o[-1][0] == 'log' else []
+    out = []
+    for e in raw:
+        if out and e == out[-1] and ev_name(e) == 'bool':
+            continue
+        out.append(e)
+    return out
 
 
 def ev_name(e):
-    """('tuple', [['str', "'getitem'"], ...]) -> getitem"""
+    """['tuple', [['str', "'getitem'"], ...]] -> getitem"""
     try:
         return e[1][0][1].strip("'")
     except Exception:
         return 'none' if e is None else '?'
 
 
-def classify(labels, exp, got, typed):
-    """mechanism key from the kind of divergence (order / count / result / exception) and the construct
-    labels of the statement, never from concrete values"""
-    i, a, b, le, lg = first_divergence(exp, got)
+def ev_key(e):
+    """leading integer of the event's key (keys of derived objects look like '12.x[]'); None for a/b"""
+    try:
+        k = e[1][1][1].strip("'")
+        m = re.match(r'\d+', k)
+        return int(m.group(0)) if m else None
+    except Exception:
+        return None
+
+
+def ev_fullkey(e):
+    try:
+        return e[1][1][1]
+    except Exception:
+        return None
+
+
+ITER_EVENTS = ('iter', 'next', 'stop')
+
+
+def peel(le, lg, facts, labels, got_raised=False):
+    """Explain the differences between the CPython log `le` and the compiled log `lg` by known, structurally
+    recognisable mechanisms, removing the events each one accounts for, until the logs agree or an unexplained
+    divergence remains. Returns (set of mechanism names, remaining index or None, le, lg)."""
+    le, lg = list(le), list(lg)
+    mechs = set()
+    for _ in range(60):
+        i = next((j for j in range(max(len(le), len(lg)))
+                  if (le[j] if j < len(le) else None) != (lg[j] if j < len(lg) else None)), None)
+        if i is None:
+            return mechs, None, le, lg
+        a = le[i] if i < len(le) else None
+        b = lg[i] if i < len(lg) else None
+        na, nb = ev_name(a), ev_name(b)
+        ka, kb = ev_key(a), ev_key(b)
+        # M2: attribute lookup of a called method happens after the arguments were evaluated
+        if na == 'getattr' and a in lg[i + 1:]:
+            le.pop(i)
+            lg.remove(a)
+            mechs.add('method-lookup-after-args')
+            continue
+        if na == 'getattr' and got_raised and a not in lg and le[i + 1:i + 1 + len(lg) - i] == lg[i:]:
+            # ... and an exception raised by an argument comes before the lookup ever happens
+            le.pop(i)
+            mechs.add('method-lookup-after-args')
+            continue
+        # M3: a *iterable is iterated at a different moment relative to the evaluation of later arguments
+        if nb in ITER_EVENTS or na in ITER_EVENTS:
+            fk = ev_fullkey(b if nb in ITER_EVENTS else a)
+            drop = lambda e: ev_name(e) in ITER_EVENTS and ev_fullkey(e) == fk
+            if sorted(map(repr, filter(drop, le))) == sorted(map(repr, filter(drop, lg))):
+                le = [e for e in le if not drop(e)]
+                lg = [e for e in lg if not drop(e)]
+                mechs.add('star-iterable-iterated-early')
+                continue
+        # M1: members of a literal container evaluated before the needle of `in` / `not in`
+        hit = False
+        for f in facts:
+            if f[0] == 'in' and ka is not None and kb is not None and f[1] <= ka <= f[2] and f[3] <= kb <= f[4]:
+                drop = lambda e, f=f: ev_key(e) is not None and f[1] <= ev_key(e) <= f[4]
+                if sorted(map(repr, filter(drop, le))) == sorted(map(repr, filter(drop, lg))):
+                    le = [e for e in le if not drop(e)]
+                    lg = [e for e in lg if not drop(e)]
+                    mechs.add('in-literal-members-before-needle')
+                    hit = True
+                    break
+            # M4: `*a, b = [x, y]` is rewritten into assignments evaluated from right to left
+            if f[0] == 'starunpack' and ka is not None and kb is not None and f[1] <= ka <= f[2] and f[1] <= kb <= f[2]:
+                drop = lambda e, f=f: ev_key(e) is not None and f[1] <= ev_key(e) <= f[2]
+                if sorted(map(repr, filter(drop, le))) == sorted(map(repr, filter(drop, lg))):
+                    le = [e for e in le if not drop(e)]
+                    lg = [e for e in lg if not drop(e)]
+                    mechs.add('starred-unpack-of-display-reordered')
+                    hit = True
+                    break
+        if hit:
+            continue
+        # M5: `o.x.y += v` evaluates `o.x` a second time for the store
+        if nb in ('getattr', 'getitem') and b in lg[:i] and 'stmt-augassign' in labels and (
+                i + 1 < len(lg) and ev_name(lg[i + 1]) in ('setattr', 'setitem')):
+            lg.pop(i)
+            mechs.add('inplace-target-base-reevaluated')
+            continue
+        # M6 (value, not order): a C bint used as an index arrives as int
+        if na == nb and na in ('getitem', 'setitem', 'delitem') and ev_fullkey(a) == ev_fullkey(b) \
+                and repr(a).replace("['bool', 'False']", "['int', '0']").replace("['bool', 'True']", "['int', '1']") == repr(b):
+            lg[i] = a
+            mechs.add('value:bint-index-arrives-as-int')
+            continue
+        return mechs, i, le, lg
+    return mechs, i, le, lg
+
+
+def classify_rest(labels, exp, got, i, le, lg, typed):
+    """mechanism key for an unexplained divergence: kind of difference, statement constructs, event names"""
     oe = exp[1] if exp[0] == 'exc' else 'ok'
     og = got[1] if got[0] == 'exc' else 'ok'
     main = sorted(l for l in labels if l.startswith(('stmt-', 'swap', 'typed-')))
@@ -51,6 +142,8 @@ def classify(labels, exp, got, typed):
     if i is None:
         kind = 'result' if oe == og else 'exception'
         return 'eval:%s:%s:%s->%s%s' % (kind, cons, oe, og, ':typed' if typed else '')
+    a = le[i] if i < len(le) else None
+    b = lg[i] if i < len(lg) else None
     if sorted(map(repr, le)) == sorted(map(repr, lg)):
         kind = 'reordered'
     elif len(lg) > len(le):
@@ -67,16 +160,16 @@ def classify(labels, exp, got, typed):
 def main(ck):
     tree = cy.Tree('C20')
     rng = ck.rng('gen')
-    nfun = ck.pick(1500, 30000)
-    per_mod = ck.pick(125, 500)
+    nfun = ck.pick(1500, 12000)
+    per_mod = ck.pick(100, 400)
     depth_choices = ck.pick([2, 3, 3], [2, 3, 3, 4, 5])
     typed_share = 0.2
     funcs = []      # (name, src, labels, typed)
     for i in range(nfun):
         typed = rng.random() < typed_share
         g = eo.Gen(rng, max_depth=rng.choice(depth_choices if not typed else [2, 3]), typed=typed)
-        src, labels = g.function('fz%dz' % i)
-        funcs.append(('fz%dz' % i, src, labels, typed))
+        src, labels, facts = g.function('fz%dz' % i)
+        funcs.append(('fz%dz' % i, src, labels, typed, facts))
     d = tree.subdir('b')
     shutil.copy(os.path.join(core.VERIF, 'vlib', 'ref', 'c20h.py'), os.path.join(d, 'c20h.py'))
     jobs, meta = [], []
@@ -139,14 +232,22 @@ def main(ck):
                 label_cases[l] = label_cases.get(l, 0) + 1
         for m in res.mismatches:
             f = byname[m['case']['f']]
-            i, a, b, le, lg = first_divergence(m['exp'], m['got'])
-            key = classify(f[2], m['exp'], m['got'], f[3])
+            mechs, i, le, lg = peel(_log(m['exp']), _log(m['got']), f[4], f[2], got_raised=m['got'][0] == 'exc')
             w = {'ext': '.pyx' if typed else '.py', 'case': m['case'], 'expected': m['exp'], 'observed': m['got'],
-                 'module_source': eo.PRELUDE + (eo.TYPED_PRELUDE if typed else '') + f[1], 'first_divergence_index': i,
-                 'labels': sorted(f[2])}
+                 'module_source': eo.PRELUDE + (eo.TYPED_PRELUDE if typed else '') + f[1], 'labels': sorted(f[2]),
+                 'mechanisms_recognised': sorted(mechs), 'extra_files': {'c20h.py': 'vlib/ref/c20h.py'}}
             if typed:
                 w['ref_source'] = eo.PRELUDE + eo.TYPED_PRELUDE_REF + eo.strip_cdef(f[1])
-            ck.discrepancy(key, 'event log / result differs at event %s (CPython %s, compiled %s) in\n%s' % (i, a, b, f[1]), w)
+            for mech in sorted(mechs):
+                ck.discrepancy('eval:' + mech, 'mechanism %s in\n%s' % (mech, f[1]), w)
+            same_outcome = m['exp'][:2] == m['got'][:2] or (m['exp'][0] == 'exc' and m['exp'][:2] == m['got'][:2])
+            if i is not None or not (mechs and same_outcome):
+                a = le[i] if i is not None and i < len(le) else None
+                b = lg[i] if i is not None and i < len(lg) else None
+                w2 = dict(w, first_unexplained_divergence=[i, a, b])
+                ck.discrepancy(classify_rest(f[2], m['exp'], m['got'], i, le, lg, f[3]),
+                               'event log / result differs (after removing recognised mechanisms %s) at event %s: CPython %s, '
+                               'compiled %s in\n%s' % (sorted(mechs), i, a, b, f[1]), w2)
         for c in res.crashes:
             f = byname[c['case']['f']]
             main_l = '+'.join(sorted(l for l in f[2] if l.startswith(('stmt-', 'typed-')))[:3])
@@ -188,3 +289,32 @@ def main(ck):
         assumptions=['CPython 3.12.1 executing the same source is the reference for order and count of events',
                      'typed (.pyx) variants are compared with the same statements without the cdef declarations; their '
                      'leaves return plain values so that C conversions add no events'])
+
+
+def replay(ck, data):
+    w = data.get('witness', data)
+    tree = cy.Tree('replay')
+    d = tree.subdir('r')
+    shutil.copy(os.path.join(core.VERIF, 'vlib', 'ref', 'c20h.py'), os.path.join(d, 'c20h.py'))
+    ext = w.get('ext', '.py')
+    d, info = tree.build_sources({'replaymod': w['module_source']}, subdir='r', ext=ext)
+    inf = info['replaymod']
+    if not inf['ok']:
+        print('build failed at', inf['stage'], inf['errors'][-2000:])
+        return 2
+    refpath = inf['src']
+    if w.get('ref_source'):
+        refpath = os.path.join(d, 'replaymod_ref.py')
+        open(refpath, 'w', encoding='utf-8').write(w['ref_source'])
+    res = diff.run_cases(tree, d, 'replaymod', [w['case']], ref=refpath, compare={'exc_args': False, 'log': True}, nproc=1)
+    for m in res.mismatches:
+        le, lg = _log(m['exp']), _log(m['got'])
+        print('expected', m['exp'][:2], [(ev_name(e), ev_fullkey(e)) for e in le])
+        print('observed', m['got'][:2], [(ev_name(e), ev_fullkey(e)) for e in lg])
+    for c in res.crashes:
+        print('crash', c['kind'], c['stderr'][-1500:])
+    if res.mismatches or res.crashes:
+        print('VIOLATION property=%s replay=<replayed>' % ck.pid)
+        return 1
+    print('replay: case now agrees with the reference (%d evaluated, fatal=%s)' % (res.n, res.fatal))
+    return 0
